@@ -17,7 +17,7 @@ def catalogue(tier, mutant=None):
     for pres in range(8):
         J["M2.P%d" % pres] = planunit.job("Plan.NodeFinished.contract.P%d" % pres, "plan_m2_nodefinished.cc", P + ["NodeFinished"], ["PRES=%d" % pres], mutant,
                                           bound="a node with 3 consumers, plan membership mask %d, symbolic want states and callee results; callee EdgeMaybeReady by contract" % pres)
-    for no in (1, 2):
+    for no in ((1, 2, 3) if tier == "thorough" else (1, 2)):
         J["M3.O%d" % no] = planunit.job("Plan.EdgeFinished.contract.out%d" % no, "plan_m3_edgefinished.cc", P + ["EdgeFinished"], ["NOUT=%d" % no], mutant,
                                         bound="an edge with %d outputs; success/failure, want state, builder/jobserver presence, pool kind symbolic; callees NodeFinished/LoadDyndeps/Pool by contract" % no,
                                         canaries=3)
